@@ -41,7 +41,7 @@ type Case struct {
 	Msgs   []Msg `json:"msgs"`
 }
 
-var kinds = []string{"vote", "vote", "vote", "proposal", "proposal", "part", "part", "newroundstep", "syncstep", "commitstep", "commitstep", "proposalpol", "hasvote", "maj23", "votesetbits", "raw", "nilfields", "repeat", "repeat", "conflictmaj", "conflictmaj", "lateproposal"}
+var kinds = []string{"vote", "vote", "vote", "proposal", "proposal", "part", "part", "newroundstep", "syncstep", "commitstep", "commitstep", "proposalpol", "hasvote", "maj23", "votesetbits", "raw", "nilfields", "repeat", "repeat", "conflictmaj", "conflictmaj", "lateproposal", "roundflood"}
 
 func genCase(t *rapid.T) Case {
 	c := Case{N: rapid.IntRange(1, 7).Draw(t, "n"), Warm: rapid.IntRange(0, 90).Draw(t, "warm")}
@@ -458,6 +458,61 @@ func runCase(c Case, x *h.Ctx) {
 				x.Label("second-proposal-sent-to-node-in-commit-step")
 				delivered++
 				queued++
+			}
+			continue
+		}
+		if m.Kind == "roundflood" {
+			// scripted attack shape: ONE peer streams votes that cannot be accepted (signed by a key
+			// that is not the named validator's) for many different rounds the node does not track.
+			// The node may open vote sets for at most two catch-up rounds per peer (anchor "bounded
+			// catch-up rounds per peer", height_vote_set.go AddVote); everything beyond that is memory
+			// a single peer can take without limit.
+			rs := v.RS()
+			hgt := rs.Height
+			signer := m.F[0] % c.N
+			k := 3 + m.F[1]%6
+			base := rs.Round + 2 + int64(m.F[2]%3)
+			typ := types.VoteTypePrevote
+			if m.F[3]%2 == 1 {
+				typ = types.VoteTypePrecommit
+			}
+			tracked := func() int {
+				cnt := 0
+				hv := v.RS().Votes
+				for i := 0; i < k; i++ {
+					if hv.Prevotes(base+int64(i)) != nil {
+						cnt++
+					}
+				}
+				return cnt
+			}
+			pre := tracked()
+			for i := 0; i < k && v.Alive; i++ {
+				vote := sim.SignVote(signer, rs.Validators, hgt, base+int64(i), typ, types.BlockID{})
+				vote.Signature = sim.Key(3000 + signer).Sign(types.SignBytes(sim.ChainID, vote))
+				bz := enc(&pbft.VoteMessage{Vote: vote})
+				guard(func() { v.ConR.Receive(pbft.VoteChannel, peer, bz) })
+				for {
+					var stepped bool
+					site, pv := guard(func() { stepped = net.StepQueued(v) })
+					if pv != nil {
+						x.Fail("consensus-goroutine-panics:"+site, "round-flood script (h%d r%d): the receive routine panicked: %v", hgt, base+int64(i), pv)
+						return
+					}
+					if !stepped {
+						break
+					}
+					queued++
+				}
+			}
+			delivered++
+			if v.Alive && v.RS().Height == hgt {
+				x.Label("unacceptable-votes-for-many-untracked-rounds-from-one-peer")
+				if created := tracked() - pre; created > 2 {
+					if x.Fail("rejected-votes-open-rounds-without-bound", "one peer sent %d votes with forged signatures for rounds %d..%d of height %d (the node is in round %d): the node now tracks %d more rounds than before; a peer may open at most 2 catch-up rounds", k, base, base+int64(k)-1, hgt, rs.Round, created) {
+						return
+					}
+				}
 			}
 			continue
 		}
